@@ -51,12 +51,6 @@ theorem frame_neg {X : Setup} {a : Nat} {ins : Instr} (hia : InstrAt X.p a ins) 
   refine Framed.one _ d ?_
   simp [VM.frameSize, savedPos_neg a ha, hia.fetch, ho, hfd]
 
-/-- a success followed by the rest: the shape of `Delivers` on a non-empty list -/
-theorem Delivers.cons {X : Setup} {b : Nat} {T S S' : List Int} {C0 : List (Nat × Nat × Nat)} {r : St} {rs : List St}
-    {s : VMState} (F : List Int) (hF : Framed X.p F) (h : Leads X s (Entry X b r.pos (F ++ T) S' r.caps))
-    (hk : ∀ s'', FailAt X (F ++ T) S' r.caps s'' → Delivers X b T S S' C0 rs s'') :
-    Delivers X b T S S' C0 (r :: rs) s := ⟨F, hF, h, hk⟩
-
 /-! ## the heads: `Nullmark`, `Setcount`, `Nullcount` (`Setmark` is in part 3) -/
 
 section heads
@@ -177,12 +171,12 @@ def loopStk (counted : Bool) (lo : Nat) (S : List Int) (q : Int) (k : Nat) : Lis
     body — entered above one more frame with the stack of iteration `k + 1` — delivers `rest` -/
 def TailOK (X : Setup) (L bd b : Nat) (counted lzy : Bool) (lo : Nat) (hi : Option Nat) (S : List Int)
     (adj : Int → Nat → Int) : Prop :=
-  ∀ (k p : Nat) (q : Int) (C : List (Nat × Nat × Nat)) (T : List Int) (rest : List St) (s : VMState),
+  ∀ (k p : Nat) (q : Int) (C : List (Nat × Nat × Nat)) (T : List Int) (v : Int) (rest : List St) (s : VMState),
     p ≤ X.se.n → (counted = false → lo ≤ k) →
     (¬ (q = (p : Int) ∧ lo ≤ k) → hi = none → k < lo + 2147483647) →
-    Entry X L p T (loopStk counted lo S q k) C s →
-    ((canGo hi k && !(decide (q = (p : Int)) && decide (lo ≤ k))) = true → ∀ (s1 : VMState) (F : List Int),
-      Framed X.p F → Entry X bd p (F ++ T) (loopStk counted lo S (p : Int) (k + 1)) C s1 →
+    Entry X L p (T ++ [v]) (loopStk counted lo S q k) C s →
+    ((canGo hi k && !(decide (q = (p : Int)) && decide (lo ≤ k))) = true → ∀ (s1 : VMState) (F : List Int) (v' : Int),
+      Framed X.p F → Entry X bd p (F ++ T ++ [v']) (loopStk counted lo S (p : Int) (k + 1)) C s1 →
       Delivers X b (F ++ T) (loopStk counted lo S (p : Int) (k + 1)) S C rest s1) →
     Delivers X b T (loopStk counted lo S (adj q p) k) S C (tailList lzy lo hi k q ⟨p, C⟩ rest) s
 
@@ -203,31 +197,31 @@ theorem gloop_delivers {X : Setup} {L bd b : Nat} {counted lzy : Bool} {lo : Nat
     (hn : X.se.n < 2147483647)
     (hdir : ∀ st, ∀ st' ∈ f st, dirLe d st.pos st'.pos)
     (hfwf : ∀ st, St.wf X.se.n st → ∀ st' ∈ f st, St.wf X.se.n st')
-    (hbody : ∀ (p : Nat) (C : List (Nat × Nat × Nat)) (T S' : List Int) (s : VMState), St.wf X.se.n ⟨p, C⟩ → T ≠ [] →
-      Entry X bd p T S' C s → Delivers X L T S' S' C (f ⟨p, C⟩) s) :
-    ∀ (fuel cnt p q : Nat) (C : List (Nat × Nat × Nat)) (T : List Int) (s : VMState), St.wf X.se.n ⟨p, C⟩ → T ≠ [] →
+    (hbody : ∀ (p : Nat) (C : List (Nat × Nat × Nat)) (T S' : List Int) (v : Int) (s : VMState), St.wf X.se.n ⟨p, C⟩ →
+      Entry X bd p (T ++ [v]) S' C s → Delivers X L T S' S' C (f ⟨p, C⟩) s) :
+    ∀ (fuel cnt p q : Nat) (C : List (Nat × Nat × Nat)) (T : List Int) (v : Int) (s : VMState), St.wf X.se.n ⟨p, C⟩ →
       (counted = false → lo ≤ cnt + 1) →
       (¬ (q = p ∧ lo ≤ cnt + 1) →
         remDir d X.se.n p + (lo - (cnt + 1)) < fuel ∧ cnt + 1 + remDir d X.se.n p ≤ lo + X.se.n) →
-      Entry X L p T (loopStk counted lo S (q : Int) (cnt + 1)) C s →
+      Entry X L p (T ++ [v]) (loopStk counted lo S (q : Int) (cnt + 1)) C s →
       Delivers X b T (loopStk counted lo S (q : Int) (cnt + 1)) S C (iterNext f lzy lo hi fuel cnt q ⟨p, C⟩) s := by
   intro fuel
   induction fuel with
   | zero =>
-    intro cnt p q C T s hwf hT hk hinv he
+    intro cnt p q C T v s hwf hk hinv he
     by_cases hem : q = p ∧ lo ≤ cnt + 1
     · have hq : (q : Int) = ((⟨p, C⟩ : St).pos : Int) := by simp [hem.1]
-      have := htail (cnt + 1) p (q : Int) C T [] s hwf.1 hk (fun h => absurd ⟨by simp [hem.1], hem.2⟩ h) he
+      have := htail (cnt + 1) p (q : Int) C T v [] s hwf.1 hk (fun h => absurd ⟨by simp [hem.1], hem.2⟩ h) he
         (fun hgo => by simp [hem.1, hem.2] at hgo)
       rw [tailList_stop hq hem.2, hadj] at this
       simpa [iterNext, hem.1, hem.2] using this
     · have := (hinv hem).1
       omega
   | succ fuel ih =>
-    intro cnt p q C T s hwf hT hk hinv he
+    intro cnt p q C T v s hwf hk hinv he
     by_cases hem : q = p ∧ lo ≤ cnt + 1
     · have hq : (q : Int) = ((⟨p, C⟩ : St).pos : Int) := by simp [hem.1]
-      have := htail (cnt + 1) p (q : Int) C T [] s hwf.1 hk (fun h => absurd ⟨by simp [hem.1], hem.2⟩ h) he
+      have := htail (cnt + 1) p (q : Int) C T v [] s hwf.1 hk (fun h => absurd ⟨by simp [hem.1], hem.2⟩ h) he
         (fun hgo => by simp [hem.1, hem.2] at hgo)
       rw [tailList_stop hq hem.2, hadj] at this
       simpa [iterNext, hem.1, hem.2] using this
@@ -235,7 +229,7 @@ theorem gloop_delivers {X : Setup} {L bd b : Nat} {counted lzy : Bool} {lo : Nat
       have hemI : ¬ ((q : Int) = (p : Int) ∧ lo ≤ cnt + 1) := fun h => hem ⟨by omega, h.2⟩
       have hpn : p ≤ X.se.n := hwf.1
       have hrn := remDir_le d hpn
-      have := htail (cnt + 1) p (q : Int) C T ((f ⟨p, C⟩).flatMap (iterNext f lzy lo hi fuel (cnt + 1) p)) s hwf.1 hk
+      have := htail (cnt + 1) p (q : Int) C T v ((f ⟨p, C⟩).flatMap (iterNext f lzy lo hi fuel (cnt + 1) p)) s hwf.1 hk
         (fun _ _ => by omega) he ?_
       · rw [tailList_go (f := f) (st := ⟨p, C⟩) hemI, hadj] at this
         have hne : (p == q && decide (lo ≤ cnt + 1)) = false := by
@@ -243,14 +237,14 @@ theorem gloop_delivers {X : Setup} {L bd b : Nat} {counted lzy : Bool} {lo : Nat
           simp only [Bool.and_eq_true, beq_iff_eq, decide_eq_true_eq] at h
           exact hem ⟨h.1.symm, h.2⟩
         simpa [iterNext, hne] using this
-      · intro _ s1 F hF he1
-        have hb := hbody p C (F ++ T) _ s1 hwf (by simp [hT]) he1
+      · intro _ s1 F v1 hF he1
+        have hb := hbody p C (F ++ T) _ v1 s1 hwf he1
         refine Delivers.bind _ s1 hb ?_
-        intro r hr F' s' hF' he'
+        intro r hr F' s' v2 hF' he'
         have hrwf := hfwf _ hwf r hr
         have hrd : dirLe d p r.pos := hdir _ r hr
         have hrn' := remDir_le d hrwf.1
-        refine ih (cnt + 1) r.pos p r.caps (F' ++ (F ++ T)) s' hrwf (by simp [hT]) (fun h => by have := hk h; omega)
+        refine ih (cnt + 1) r.pos p r.caps (F' ++ (F ++ T)) v2 s' hrwf (fun h => by have := hk h; omega)
           ?_ he'
         intro hne
         by_cases hrp : r.pos = p
@@ -266,27 +260,27 @@ section branchmark
 variable {X : Setup} {L bd : Nat} {S : List Int}
 
 /-- leaving a greedy uncounted loop: the `Back2` frame `[-L, q]` restores the mark -/
-theorem branchmark_exit (hL : L ≠ 0) (hia : InstrAt X.p L (i1 opBranchmark (bd : Int))) {p : Nat} {q : Int} {T : List Int}
-    {C : List (Nat × Nat × Nat)} {s1 : VMState} (he1 : Entry X (L + 2) p ((-(L : Int)) :: q :: T) S C s1) :
+theorem branchmark_exit (hL : L ≠ 0) (hia : InstrAt X.p L (i1 opBranchmark (bd : Int))) {p : Nat} {q v : Int} {T : List Int}
+    {C : List (Nat × Nat × Nat)} {s1 : VMState} (he1 : Entry X (L + 2) p ((-(L : Int)) :: q :: (T ++ [v])) S C s1) :
     Delivers X (L + 2) T (q :: S) S C [⟨p, C⟩] s1 := by
   have hdec : decode (i1 opBranchmark (bd : Int)).op = ⟨opBranchmark, false, false, false, false⟩ :=
     decode_plain opBranchmark (by decide)
-  refine Delivers.cons [-(L : Int), q] (frame_neg hia (o := .branchmark) (by rw [hdec]; rfl) hL [q] rfl)
+  refine Delivers.cons (v := v) [-(L : Int), q] (frame_neg hia (o := .branchmark) (by rw [hdec]; rfl) hL [q] rfl)
     (Leads.here (by simpa using he1)) ?_
-  intro s'' hf
-  obtain ⟨s2, chk, hst, hbe⟩ := fail_step2 (by simpa using hf) hL hia.fetch
-  refine Leads.of_step hst (Leads.here ?_)
+  intro s'' v' hf
+  obtain ⟨s2, chk, hst, hbe⟩ := fail_step2 (rest := q :: (T ++ [v'])) (by simpa using hf) hL hia.fetch
+  refine Delivers.fail (v := v') (Leads.of_step hst (Leads.here ?_))
   have hoper : s2.oper = ⟨opBranchmark, false, false, true, false⟩ := by rw [hbe.op, hdec]
   have hop : Op.ofNat? s2.oper.op = some .branchmark := by rw [hoper]; rfl
   have hb : s2.oper.back = false := by rw [hoper]
   have hb2 : s2.oper.back2 = true := by rw [hoper]
-  refine ⟨VM.spush { s2 with track := T } q, ?_, rfl, by simp [VM.spush, hbe.st], hbe.cap⟩
+  refine ⟨VM.spush { s2 with track := T ++ [v'] } q, ?_, rfl, by simp [VM.spush, hbe.st], hbe.cap⟩
   simp only [body, hop, modeOf, hb, hb2, caseRestoreBack, restoreMark, hbe.tr, Except.map]
 
 theorem branchmark_tail {lo : Nat} (hL : L ≠ 0) (hia : InstrAt X.p L (i1 opBranchmark (bd : Int)))
     (hfb : ∃ w, VM.fetch X.p (L + 2) = .ok w) (hfbd : ∃ w, VM.fetch X.p bd = .ok w) :
     TailOK X L bd (L + 2) false false lo none S (fun q _ => q) := by
-  intro k p q C T rest s _ hk _ he hprem
+  intro k p q C T v rest s _ hk _ he hprem
   obtain ⟨w, hw⟩ := hfb
   obtain ⟨wb, hwb⟩ := hfbd
   have hlo : lo ≤ k := hk rfl
@@ -302,7 +296,7 @@ theorem branchmark_tail {lo : Nat} (hL : L ≠ 0) (hia : InstrAt X.p L (i1 opBra
     have hz : ((p : Int) - q != 0) = false := by rw [hq]; simp
     have hbody : VM.body X.p X.env s = .ok (VM.pushNeg1 { s with stack := S } q, .advance 1) := by
       simp only [body, hop, modeOf, hb, hb2, caseBranchmark, he.st, he.tp, hz, Bool.false_eq_true, if_false]
-    refine Delivers.of_step (step_adv hbody (by simp only [VM.pushNeg1, he.pc]; exact hw)) (branchmark_exit hL hia ?_)
+    refine Delivers.of_step (step_adv hbody (by simp only [VM.pushNeg1, he.pc]; exact hw)) (branchmark_exit (v := v) hL hia ?_)
     exact ⟨by simp [VM.pushNeg1, he.pc], hw, by simp [VM.pushNeg1, he.tp], by simp [VM.pushNeg1, he.pc, he.tr],
       by simp [VM.pushNeg1], by simp only [VM.pushNeg1]; exact he.cap⟩
   · have hgo : (canGo none k && !(decide (q = (p : Int)) && decide (lo ≤ k))) = true := by simp [canGo, hq]
@@ -319,12 +313,12 @@ theorem branchmark_tail {lo : Nat} (hL : L ≠ 0) (hia : InstrAt X.p L (i1 opBra
         decode_plain opBranchmark (by decide)]; rfl) [(p : Int), q] rfl
     refine Delivers.of_step (step_goto hbody hwb) ?_
     refine Delivers.append (Sm := (p : Int) :: S) (C1 := C) (F := [(L : Int), (p : Int), q]) hfr rest _ ?_ ?_
-    · refine hprem hgo _ _ hfr ?_
+    · refine hprem hgo _ _ v hfr ?_
       exact ⟨rfl, hwb, by simp [VM.spush, VM.push2, he.tp], by simp [VM.spush, VM.push2, he.pc, he.tr],
         by simp [VM.spush, VM.push2], by simp only [VM.spush, VM.push2]; exact he.cap⟩
     · -- the body failed: `Branchmark|Back` leaves the loop at `p`
-      intro s'' hf
-      obtain ⟨s2, chk, hst, hbe⟩ := fail_step (by simpa using hf) hia.fetch
+      intro s'' v' hf
+      obtain ⟨s2, chk, hst, hbe⟩ := fail_step (rest := (p : Int) :: q :: (T ++ [v'])) (by simpa using hf) hia.fetch
       refine Delivers.of_step hst ?_
       have hoper2 : s2.oper = ⟨opBranchmark, false, true, false, false⟩ := by
         rw [hbe.op, show decode (i1 opBranchmark (bd : Int)).op = _ from decode_plain opBranchmark (by decide)]
@@ -332,10 +326,10 @@ theorem branchmark_tail {lo : Nat} (hL : L ≠ 0) (hia : InstrAt X.p L (i1 opBra
       have hbk : s2.oper.back = true := by rw [hoper2]
       have hbk2 : s2.oper.back2 = false := by rw [hoper2]
       have hbody2 : VM.body X.p X.env s2 =
-          .ok (VM.pushNeg1 (VM.textto { s2 with track := T, stack := S } (p : Int)) q, .advance 1) := by
+          .ok (VM.pushNeg1 (VM.textto { s2 with track := T ++ [v'], stack := S } (p : Int)) q, .advance 1) := by
         simp only [body, hop2, modeOf, hbk, hbk2, caseBranchmarkBack, hbe.tr, hbe.st]
       refine Delivers.of_step (step_adv hbody2 (by simp only [VM.pushNeg1, VM.textto, hbe.pc]; exact hw))
-        (branchmark_exit hL hia ?_)
+        (branchmark_exit (v := v') hL hia ?_)
       exact ⟨by simp [VM.pushNeg1, VM.textto, hbe.pc], hw, by simp [VM.pushNeg1, VM.textto],
         by simp [VM.pushNeg1, VM.textto, hbe.pc], by simp [VM.pushNeg1, VM.textto],
         by simp only [VM.pushNeg1, VM.textto]; exact hbe.cap⟩
@@ -355,7 +349,7 @@ theorem lbm_dec : decode (i1 opLazybranchmark (bd : Int)).op = ⟨opLazybranchma
 
 /-- `Lazybranchmark|Back2` -/
 theorem lazybranchmark_back2 (hL : L ≠ 0) (hia : InstrAt X.p L (i1 opLazybranchmark (bd : Int))) {q : Int} {T S0 : List Int}
-    {C : List (Nat × Nat × Nat)} {s : VMState} {np : Int} (hnp : (np = 0 ∧ S0 = S) ∨ (np = 1 ∧ ∃ v, S0 = v :: S))
+    {C : List (Nat × Nat × Nat)} {s : VMState} {np : Int} (hnp : (np = 0 ∧ S0 = S) ∨ (np = 1 ∧ ∃ u, S0 = u :: S))
     (hf : FailAt X ((-(L : Int)) :: np :: q :: T) S0 C s) : Leads X s (FailAt X T (q :: S) C) := by
   obtain ⟨s2, chk, hst, hbe⟩ := fail_step2 hf hL hia.fetch
   refine Leads.of_step hst (Leads.here ?_)
@@ -364,7 +358,7 @@ theorem lazybranchmark_back2 (hL : L ≠ 0) (hia : InstrAt X.p L (i1 opLazybranc
   have hb : s2.oper.back = false := by rw [hoper]
   have hb2 : s2.oper.back2 = true := by rw [hoper]
   refine ⟨VM.spush { s2 with track := T, stack := S } q, ?_, rfl, by simp [VM.spush], hbe.cap⟩
-  rcases hnp with ⟨h0, hS⟩ | ⟨h1, v, hS⟩
+  rcases hnp with ⟨h0, hS⟩ | ⟨h1, u, hS⟩
   · subst h0; subst hS
     have : ({ s2 with track := T } : VMState) = { s2 with track := T, stack := s2.stack } := rfl
     simp only [body, hop, modeOf, hb, hb2, caseLazybranchmarkBack2, hbe.tr]
@@ -376,7 +370,7 @@ theorem lazybranchmark_back2 (hL : L ≠ 0) (hia : InstrAt X.p L (i1 opLazybranc
 theorem lazybranchmark_tail {lo : Nat} (hL : L ≠ 0) (hia : InstrAt X.p L (i1 opLazybranchmark (bd : Int)))
     (hfb : ∃ w, VM.fetch X.p (L + 2) = .ok w) (hfbd : ∃ w, VM.fetch X.p bd = .ok w) :
     TailOK X L bd (L + 2) false true lo none S lbmAdj := by
-  intro k p q C T rest s _ hk _ he hprem
+  intro k p q C T v rest s _ hk _ he hprem
   obtain ⟨w, hw⟩ := hfb
   obtain ⟨wb, hwb⟩ := hfbd
   have hlo : lo ≤ k := hk rfl
@@ -393,12 +387,12 @@ theorem lazybranchmark_tail {lo : Nat} (hL : L ≠ 0) (hia : InstrAt X.p L (i1 o
     have hbody : VM.body X.p X.env s = .ok (VM.pushNeg2 { s with stack := S } q 0, .advance 1) := by
       simp only [body, hop, modeOf, hb, hb2, caseLazybranchmark, he.st, he.tp, hz, Bool.false_eq_true, if_false]
     refine Delivers.of_step (step_adv hbody (by simp only [VM.pushNeg2, he.pc]; exact hw)) ?_
-    refine Delivers.cons [-(L : Int), 0, q] (frame_neg hia (o := .lazybranchmark) (by rw [lbm_dec]; rfl) hL [0, q] rfl)
+    refine Delivers.cons (v := v) [-(L : Int), 0, q] (frame_neg hia (o := .lazybranchmark) (by rw [lbm_dec]; rfl) hL [0, q] rfl)
       (Leads.here ?_) ?_
     · exact ⟨by simp [VM.pushNeg2, he.pc], hw, by simp [VM.pushNeg2, he.tp], by simp [VM.pushNeg2, he.pc, he.tr],
         by simp [VM.pushNeg2], by simp only [VM.pushNeg2]; exact he.cap⟩
-    · intro s'' hf
-      exact lazybranchmark_back2 hL hia (Or.inl ⟨rfl, rfl⟩) (by simpa using hf)
+    · intro s'' v' hf
+      exact Delivers.fail (v := v') (lazybranchmark_back2 hL hia (Or.inl ⟨rfl, rfl⟩) (by simpa using hf))
   · have hgo : (canGo none k && !(decide (q = (p : Int)) && decide (lo ≤ k))) = true := by simp [canGo, hq]
     have htl : tailList true lo none k q ⟨p, C⟩ rest = ⟨p, C⟩ :: rest := by
       simp [tailList, canGo, hq, hlo]
@@ -413,19 +407,19 @@ theorem lazybranchmark_tail {lo : Nat} (hL : L ≠ 0) (hia : InstrAt X.p L (i1 o
     have hfr : Framed X.p [(L : Int), (p : Int), lbmAdj q p] :=
       frame_pos hia (o := .lazybranchmark) (by rw [lbm_dec]; rfl) [(p : Int), lbmAdj q p] rfl
     refine Delivers.of_step (step_adv hbody (by simp only [VM.push2, he.pc]; exact hw)) ?_
-    refine Delivers.cons [(L : Int), (p : Int), lbmAdj q p] hfr (Leads.here ?_) ?_
+    refine Delivers.cons (v := v) [(L : Int), (p : Int), lbmAdj q p] hfr (Leads.here ?_) ?_
     · exact ⟨by simp [VM.push2, he.pc], hw, by simp [VM.push2, he.tp], by simp [VM.push2, he.pc, he.tr],
         by simp [VM.push2], by simp only [VM.push2]; exact he.cap⟩
     · -- the continuation failed: `Lazybranchmark|Back` runs the body once more
-      intro s'' hf
-      obtain ⟨s2, chk, hst, hbe⟩ := fail_step (by simpa using hf) hia.fetch
+      intro s'' v' hf
+      obtain ⟨s2, chk, hst, hbe⟩ := fail_step (rest := (p : Int) :: lbmAdj q p :: (T ++ [v'])) (by simpa using hf) hia.fetch
       refine Delivers.of_step hst ?_
       have hoper2 : s2.oper = ⟨opLazybranchmark, false, true, false, false⟩ := by rw [hbe.op, lbm_dec]
       have hop2 : Op.ofNat? s2.oper.op = some .lazybranchmark := by rw [hoper2]; rfl
       have hbk : s2.oper.back = true := by rw [hoper2]
       have hbk2 : s2.oper.back2 = false := by rw [hoper2]
       have hbody2 : VM.body X.p X.env s2 =
-          .ok (VM.textto (VM.spush (VM.pushNeg2 { s2 with track := T } (lbmAdj q p) 1) (p : Int)) (p : Int),
+          .ok (VM.textto (VM.spush (VM.pushNeg2 { s2 with track := T ++ [v'] } (lbmAdj q p) 1) (p : Int)) (p : Int),
             .goto (bd : Int)) := by
         simp only [body, hop2, modeOf, hbk, hbk2, caseLazybranchmarkBack, hbe.tr, hia.operand hbe.pc 0 (bd : Int) rfl,
           Except.map]
@@ -434,11 +428,11 @@ theorem lazybranchmark_tail {lo : Nat} (hL : L ≠ 0) (hia : InstrAt X.p L (i1 o
         frame_neg hia (o := .lazybranchmark) (by rw [lbm_dec]; rfl) hL [1, lbmAdj q p] rfl
       refine (Delivers.append (X := X) (b := L + 2) (T := T) (S := lbmAdj q p :: S) (S' := S) (C0 := C)
         (Sm := (p : Int) :: S) (C1 := C) (F := [-(L : Int), 1, lbmAdj q p]) hfr2 (ys := []) rest _
-        (hprem hgo _ _ hfr2 ?_) ?_).cast rfl (List.append_nil _)
+        (hprem hgo _ _ v' hfr2 ?_) ?_).cast rfl (List.append_nil _)
       · exact ⟨rfl, hwb, by simp [VM.textto], by simp [VM.textto, VM.spush, VM.pushNeg2, hbe.pc],
           by simp [VM.textto, VM.spush, VM.pushNeg2, hbe.st], by simp only [VM.textto, VM.spush, VM.pushNeg2]; exact hbe.cap⟩
-      · intro s3 hf3
-        exact lazybranchmark_back2 hL hia (Or.inr ⟨rfl, _, rfl⟩) (by simpa using hf3)
+      · intro s3 v3 hf3
+        exact Delivers.fail (v := v3) (lazybranchmark_back2 hL hia (Or.inr ⟨rfl, _, rfl⟩) (by simpa using hf3))
 
 end lazybranchmark
 
@@ -490,27 +484,27 @@ theorem bc_dec : decode (i2 opBranchcount (bd : Int) lim).op = ⟨opBranchcount,
   decode_plain opBranchcount (by decide)
 
 /-- leaving a greedy counted loop: the `Back2` frame `[-L, count, mark]` restores both -/
-theorem branchcount_exit (hL : L ≠ 0) (hia : InstrAt X.p L (i2 opBranchcount (bd : Int) lim)) {p : Nat} {q c : Int}
+theorem branchcount_exit (hL : L ≠ 0) (hia : InstrAt X.p L (i2 opBranchcount (bd : Int) lim)) {p : Nat} {q c v : Int}
     {T : List Int} {C : List (Nat × Nat × Nat)} {s1 : VMState}
-    (he1 : Entry X (L + 3) p ((-(L : Int)) :: c :: q :: T) S C s1) :
+    (he1 : Entry X (L + 3) p ((-(L : Int)) :: c :: q :: (T ++ [v])) S C s1) :
     Delivers X (L + 3) T (c :: q :: S) S C [⟨p, C⟩] s1 := by
-  refine Delivers.cons [-(L : Int), c, q] (frame_neg hia (o := .branchcount) (by rw [bc_dec]; rfl) hL [c, q] rfl)
+  refine Delivers.cons (v := v) [-(L : Int), c, q] (frame_neg hia (o := .branchcount) (by rw [bc_dec]; rfl) hL [c, q] rfl)
     (Leads.here (by simpa using he1)) ?_
-  intro s'' hf
-  obtain ⟨s2, chk, hst, hbe⟩ := fail_step2 (by simpa using hf) hL hia.fetch
-  refine Leads.of_step hst (Leads.here ?_)
+  intro s'' v' hf
+  obtain ⟨s2, chk, hst, hbe⟩ := fail_step2 (rest := c :: q :: (T ++ [v'])) (by simpa using hf) hL hia.fetch
+  refine Delivers.fail (v := v') (Leads.of_step hst (Leads.here ?_))
   have hoper : s2.oper = ⟨opBranchcount, false, false, true, false⟩ := by rw [hbe.op, bc_dec]
   have hop : Op.ofNat? s2.oper.op = some .branchcount := by rw [hoper]; rfl
   have hb : s2.oper.back = false := by rw [hoper]
   have hb2 : s2.oper.back2 = true := by rw [hoper]
-  refine ⟨VM.spush2 { s2 with track := T } q c, ?_, rfl, by simp [VM.spush2, hbe.st], hbe.cap⟩
+  refine ⟨VM.spush2 { s2 with track := T ++ [v'] } q c, ?_, rfl, by simp [VM.spush2, hbe.st], hbe.cap⟩
   simp only [body, hop, modeOf, hb, hb2, caseBranchcountBack2, hbe.tr]
 
 theorem branchcount_tail {lo : Nat} {hi : Option Nat} (hrel : EnvRel TPx sets X.env X.se) (hL : L ≠ 0)
     (hia : InstrAt X.p L (i2 opBranchcount (bd : Int) lim)) (hfb : ∃ w, VM.fetch X.p (L + 3) = .ok w)
     (hfbd : ∃ w, VM.fetch X.p bd = .ok w) (hl : limOK lo hi lim) :
     TailOK X L bd (L + 3) true false lo hi S (fun q _ => q) := by
-  intro k p q C T rest s hpn _ hbnd he hprem
+  intro k p q C T v rest s hpn _ hbnd he hprem
   obtain ⟨w, hw⟩ := hfb
   obtain ⟨wb, hwb⟩ := hfbd
   simp only [loopStk, if_true, Int.natCast_add, Int.natCast_one] at he hprem ⊢
@@ -528,7 +522,7 @@ theorem branchcount_tail {lo : Nat} {hi : Option Nat} (hrel : EnvRel TPx sets X.
         .ok (VM.pushNeg2 { s with stack := S } q ((k : Int) - (lo : Int)), .advance 2) := by
       simp only [body, hop, modeOf, hb, hb2, caseBranchcount, he.st, he.tp, bind, Except.bind,
         hia.operand he.pc 1 lim rfl, if_pos hE, pure, Except.pure]
-    refine Delivers.of_step (step_adv hbody (by simp only [VM.pushNeg2, he.pc]; exact hw)) (branchcount_exit hL hia ?_)
+    refine Delivers.of_step (step_adv hbody (by simp only [VM.pushNeg2, he.pc]; exact hw)) (branchcount_exit (v := v) hL hia ?_)
     exact ⟨by simp [VM.pushNeg2, he.pc], hw, by simp [VM.pushNeg2, he.tp], by simp [VM.pushNeg2, he.pc, he.tr],
       by simp [VM.pushNeg2], by simp only [VM.pushNeg2]; exact he.cap⟩
   · have hgo := count_go hl hbnd hE
@@ -545,12 +539,12 @@ theorem branchcount_tail {lo : Nat} {hi : Option Nat} (hrel : EnvRel TPx sets X.
     refine Delivers.of_step (step_goto hbody hwb) ?_
     refine Delivers.append (Sm := ((k : Int) + 1 - (lo : Int)) :: (p : Int) :: S) (C1 := C)
       (F := [(L : Int), q]) hfr rest _ ?_ ?_
-    · refine hprem hgo _ _ hfr ?_
+    · refine hprem hgo _ _ v hfr ?_
       exact ⟨rfl, hwb, by simp [VM.spush2, VM.push1, he.tp], by simp [VM.spush2, VM.push1, he.pc, he.tr],
         by simp [VM.spush2, VM.push1, hcnt], by simp only [VM.spush2, VM.push1]; exact he.cap⟩
     · -- the body failed: `Branchcount|Back`
-      intro s'' hf
-      obtain ⟨s2, chk, hst, hbe⟩ := fail_step (by simpa using hf) hia.fetch
+      intro s'' v' hf
+      obtain ⟨s2, chk, hst, hbe⟩ := fail_step (rest := q :: (T ++ [v'])) (by simpa using hf) hia.fetch
       have hoper2 : s2.oper = ⟨opBranchcount, false, true, false, false⟩ := by rw [hbe.op, bc_dec]
       have hop2 : Op.ofNat? s2.oper.op = some .branchcount := by rw [hoper2]; rfl
       have hbk : s2.oper.back = true := by rw [hoper2]
@@ -561,22 +555,22 @@ theorem branchcount_tail {lo : Nat} {hi : Option Nat} (hrel : EnvRel TPx sets X.
         have hpos : (k : Int) + 1 - (lo : Int) > 0 := by omega
         have hrange : (0 : Int) ≤ (p : Int) ∧ (p : Int) ≤ X.env.len := by rw [env_len hrel]; omega
         have hbody2 : VM.body X.p X.env s2 =
-            .ok (VM.pushNeg2 (VM.textto { s2 with track := T, stack := S } (p : Int)) q
+            .ok (VM.pushNeg2 (VM.textto { s2 with track := T ++ [v'], stack := S } (p : Int)) q
               ((k : Int) + 1 - (lo : Int) - 1), .advance 2) := by
           simp only [body, hop2, modeOf, hbk, hbk2, caseBranchcountBack, hbe.tr, hbe.st, hpos, if_true, VM.texttoStack,
             hrange, and_self, Except.map]
         have hc1 : (k : Int) + 1 - (lo : Int) - 1 = (k : Int) - (lo : Int) := by omega
         rw [hc1] at hbody2
         refine Delivers.of_step (step_adv hbody2 (by simp only [VM.pushNeg2, VM.textto, hbe.pc]; exact hw))
-          (branchcount_exit hL hia ?_)
+          (branchcount_exit (v := v') hL hia ?_)
         exact ⟨by simp [VM.pushNeg2, VM.textto, hbe.pc], hw, by simp [VM.pushNeg2, VM.textto],
           by simp [VM.pushNeg2, VM.textto, hbe.pc], by simp [VM.pushNeg2, VM.textto],
           by simp only [VM.pushNeg2, VM.textto]; exact hbe.cap⟩
       · rw [if_neg hlo]
-        refine Leads.of_step hst (Leads.here ?_)
+        refine Delivers.fail (v := v') (Leads.of_step hst (Leads.here ?_))
         have hpos : ¬ (k : Int) + 1 - (lo : Int) > 0 := by omega
         have hc1 : (k : Int) + 1 - (lo : Int) - 1 = (k : Int) - (lo : Int) := by omega
-        refine ⟨VM.spush2 { s2 with track := T, stack := S } q ((k : Int) - (lo : Int)), ?_, rfl,
+        refine ⟨VM.spush2 { s2 with track := T ++ [v'], stack := S } q ((k : Int) - (lo : Int)), ?_, rfl,
           by simp [VM.spush2], hbe.cap⟩
         simp only [body, hop2, modeOf, hbk, hbk2, caseBranchcountBack, hbe.tr, hbe.st, hpos, if_false, hc1]
 
@@ -605,7 +599,7 @@ theorem lazybranchcount_tail {lo : Nat} {hi : Option Nat} (hL : L ≠ 0)
     (hia : InstrAt X.p L (i2 opLazybranchcount (bd : Int) lim)) (hfb : ∃ w, VM.fetch X.p (L + 3) = .ok w)
     (hfbd : ∃ w, VM.fetch X.p bd = .ok w) (hl : limOK lo hi lim) :
     TailOK X L bd (L + 3) true true lo hi S (fun q _ => q) := by
-  intro k p q C T rest s _ _ hbnd he hprem
+  intro k p q C T v rest s _ _ hbnd he hprem
   obtain ⟨w, hw⟩ := hfb
   obtain ⟨wb, hwb⟩ := hfbd
   simp only [loopStk, if_true, Int.natCast_add, Int.natCast_one] at he hprem ⊢
@@ -617,18 +611,18 @@ theorem lazybranchcount_tail {lo : Nat} {hi : Option Nat} (hL : L ≠ 0)
   have hc1 : (k : Int) + 1 - (lo : Int) - 1 = (k : Int) - (lo : Int) := by omega
   have hfr2 : Framed X.p [-(L : Int), q] := frame_neg hia (o := .lazybranchcount) (by rw [lbc_dec]; rfl) hL [q] rfl
   -- one more round of the body above the `Back2` frame, then the failure into the stack of this arrival
-  have hround : ∀ (s1 : VMState), (canGo hi k && !(decide (q = (p : Int)) && decide (lo ≤ k))) = true →
-      Entry X bd p ([-(L : Int), q] ++ T) (((k : Int) + 1 - (lo : Int)) :: (p : Int) :: S) C s1 →
+  have hround : ∀ (s1 : VMState) (v1 : Int), (canGo hi k && !(decide (q = (p : Int)) && decide (lo ≤ k))) = true →
+      Entry X bd p ([-(L : Int), q] ++ T ++ [v1]) (((k : Int) + 1 - (lo : Int)) :: (p : Int) :: S) C s1 →
       Delivers X (L + 3) T (((k : Int) - (lo : Int)) :: q :: S) S C rest s1 := by
-    intro s1 hgo he1
+    intro s1 v1 hgo he1
     have := Delivers.append (X := X) (b := L + 3) (T := T) (S := ((k : Int) - (lo : Int)) :: q :: S) (S' := S) (C0 := C)
       (Sm := ((k : Int) + 1 - (lo : Int)) :: (p : Int) :: S) (C1 := C) (F := [-(L : Int), q]) hfr2 (ys := []) rest _
-      (hprem hgo _ _ hfr2 he1) ?_
+      (hprem hgo _ _ v1 hfr2 he1) ?_
     · simpa using this
-    · intro s3 hf3
-      have := lazybranchcount_back2 hL hia (by simpa using hf3)
+    · intro s3 v3 hf3
+      have := lazybranchcount_back2 (T := T ++ [v3]) hL hia (by simpa using hf3)
       rw [hc1] at this
-      exact this
+      exact Delivers.fail (v := v3) this
   by_cases hneg : (k : Int) - (lo : Int) < 0
   · -- the minimum is not reached: iterate
     have hlo : ¬ lo ≤ k := by omega
@@ -645,7 +639,7 @@ theorem lazybranchcount_tail {lo : Nat} {hi : Option Nat} (hL : L ≠ 0)
         .ok (VM.spush2 (VM.pushNeg1 { s with stack := S } q) (p : Int) ((k : Int) - (lo : Int) + 1), .goto (bd : Int)) := by
       simp only [body, hop, modeOf, hb, hb2, caseLazybranchcount, he.st, he.tp, if_pos hneg,
         hia.operand he.pc 0 (bd : Int) rfl, Except.map]
-    refine Delivers.of_step (step_goto hbody hwb) (hround _ hgo ?_)
+    refine Delivers.of_step (step_goto hbody hwb) (hround _ v hgo ?_)
     exact ⟨rfl, hwb, by simp [VM.spush2, VM.pushNeg1, he.tp], by simp [VM.spush2, VM.pushNeg1, he.pc, he.tr],
       by simp [VM.spush2, VM.pushNeg1, hcnt], by simp only [VM.spush2, VM.pushNeg1]; exact he.cap⟩
   · have hlo : lo ≤ k := by omega
@@ -659,11 +653,11 @@ theorem lazybranchcount_tail {lo : Nat} {hi : Option Nat} (hL : L ≠ 0)
       simp [tailList, hlo]
     rw [htl]
     refine Delivers.of_step (step_adv hbody (by simp only [VM.push3, he.pc]; exact hw)) ?_
-    refine Delivers.cons [(L : Int), (p : Int), (k : Int) - (lo : Int), q] hfr (Leads.here ?_) ?_
+    refine Delivers.cons (v := v) [(L : Int), (p : Int), (k : Int) - (lo : Int), q] hfr (Leads.here ?_) ?_
     · exact ⟨by simp [VM.push3, he.pc], hw, by simp [VM.push3, he.tp], by simp [VM.push3, he.pc, he.tr],
         by simp [VM.push3], by simp only [VM.push3]; exact he.cap⟩
-    · intro s'' hf
-      obtain ⟨s2, chk, hst, hbe⟩ := fail_step (by simpa using hf) hia.fetch
+    · intro s'' v' hf
+      obtain ⟨s2, chk, hst, hbe⟩ := fail_step (rest := (p : Int) :: ((k : Int) - (lo : Int)) :: q :: (T ++ [v'])) (by simpa using hf) hia.fetch
       have hoper2 : s2.oper = ⟨opLazybranchcount, false, true, false, false⟩ := by rw [hbe.op, lbc_dec]
       have hop2 : Op.ofNat? s2.oper.op = some .lazybranchcount := by rw [hoper2]; rfl
       have hbk : s2.oper.back = true := by rw [hoper2]
@@ -678,11 +672,11 @@ theorem lazybranchcount_tail {lo : Nat} {hi : Option Nat} (hL : L ≠ 0)
           simp only [Bool.and_eq_true] at hgo; exact hgo.1
         refine Delivers.of_step hst ?_
         have hbody2 : VM.body X.p X.env s2 =
-            .ok (VM.pushNeg1 (VM.spush2 (VM.textto { s2 with track := T } (p : Int)) (p : Int) ((k : Int) - (lo : Int) + 1)) q,
+            .ok (VM.pushNeg1 (VM.spush2 (VM.textto { s2 with track := T ++ [v'] } (p : Int)) (p : Int) ((k : Int) - (lo : Int) + 1)) q,
               .goto (bd : Int)) := by
           simp only [body, hop2, modeOf, hbk, hbk2, caseLazybranchcountBack, hbe.tr, bind, Except.bind,
             hia.operand hbe.pc 1 lim rfl, if_pos hcond, hia.operand hbe.pc 0 (bd : Int) rfl, pure, Except.pure]
-        refine Delivers.of_step (step_goto hbody2 hwb) (hround _ hgo ?_)
+        refine Delivers.of_step (step_goto hbody2 hwb) (hround _ v' hgo ?_)
         exact ⟨rfl, hwb, by simp [VM.pushNeg1, VM.spush2, VM.textto],
           by simp [VM.pushNeg1, VM.spush2, VM.textto, hbe.pc],
           by simp [VM.pushNeg1, VM.spush2, VM.textto, hbe.st, hcnt],
@@ -695,8 +689,8 @@ theorem lazybranchcount_tail {lo : Nat} {hi : Option Nat} (hL : L ≠ 0)
           have : (decide (q = (p : Int)) && decide (lo ≤ k)) = false := by
             rw [Bool.eq_false_iff]; intro h; simp only [Bool.and_eq_true, decide_eq_true_eq] at h; exact hq h
           exact hgo (by simp [hcg, this])
-        refine Leads.of_step hst (Leads.here ?_)
-        refine ⟨VM.spush2 { s2 with track := T } q ((k : Int) - (lo : Int)), ?_, rfl, by simp [VM.spush2, hbe.st], hbe.cap⟩
+        refine Delivers.fail (v := v') (Leads.of_step hst (Leads.here ?_))
+        refine ⟨VM.spush2 { s2 with track := T ++ [v'] } q ((k : Int) - (lo : Int)), ?_, rfl, by simp [VM.spush2, hbe.st], hbe.cap⟩
         simp only [body, hop2, modeOf, hbk, hbk2, caseLazybranchcountBack, hbe.tr, bind, Except.bind,
           hia.operand hbe.pc 1 lim rfl, if_neg hcond, pure, Except.pure]
 
@@ -707,35 +701,35 @@ end lazybranchcount
 /-- a loop whose head (at `a`, one frame `[a]`) and tail (contract `htail`) are given abstractly: `lo = 0` — the head
     leads to the tail with mark `-1` and no iteration done; `lo ≥ 1` — the head leads into the body -/
 theorem gloop_node {X : Setup} {a L bd b : Nat} {counted lzy : Bool} {lo : Nat} {hi : Option Nat} {S : List Int}
-    {adj : Int → Nat → Int} {f : St → List St} {d : Bool} {i : Nat} {T : List Int} {C : List (Nat × Nat × Nat)}
+    {adj : Int → Nat → Int} {f : St → List St} {d : Bool} {i : Nat} {T : List Int} {v : Int} {C : List (Nat × Nat × Nat)}
     {s : VMState}
     (htail : TailOK X L bd b counted lzy lo hi S adj) (hadj : ∀ (q p : Nat), adj (q : Int) p = (q : Int))
     (hn : X.se.n < 2147483647)
     (hdir : ∀ st, ∀ st' ∈ f st, dirLe d st.pos st'.pos)
     (hfwf : ∀ st, St.wf X.se.n st → ∀ st' ∈ f st, St.wf X.se.n st')
-    (hbody : ∀ (p : Nat) (C : List (Nat × Nat × Nat)) (T S' : List Int) (s : VMState), St.wf X.se.n ⟨p, C⟩ → T ≠ [] →
-      Entry X bd p T S' C s → Delivers X L T S' S' C (f ⟨p, C⟩) s)
+    (hbody : ∀ (p : Nat) (C : List (Nat × Nat × Nat)) (T S' : List Int) (v : Int) (s : VMState), St.wf X.se.n ⟨p, C⟩ →
+      Entry X bd p (T ++ [v]) S' C s → Delivers X L T S' S' C (f ⟨p, C⟩) s)
     (hhi : ∀ h, hi = some h → lo ≤ h) (hcu : counted = false → lo ≤ 1)
-    (hwf : St.wf X.se.n ⟨i, C⟩) (he : Entry X a i T S C s)
-    (hhead0 : lo = 0 → Leads X s (Entry X L i ((a : Int) :: T) (loopStk counted lo S (-1) 0) C))
-    (hhead1 : lo ≠ 0 → Leads X s (Entry X bd i ((a : Int) :: T) (loopStk counted lo S (i : Int) 1) C))
+    (hwf : St.wf X.se.n ⟨i, C⟩)
+    (hhead0 : lo = 0 → Leads X s (Entry X L i ((a : Int) :: (T ++ [v])) (loopStk counted lo S (-1) 0) C))
+    (hhead1 : lo ≠ 0 → Leads X s (Entry X bd i ((a : Int) :: (T ++ [v])) (loopStk counted lo S (i : Int) 1) C))
     (hframe : Framed X.p [(a : Int)])
-    (hback : ∀ (q : Int) (k : Nat) (s' : VMState), FailAt X ((a : Int) :: T) (loopStk counted lo S q k) C s' →
-      Leads X s' (FailAt X T S C)) :
+    (hback : ∀ (q : Int) (k : Nat) (v' : Int) (s' : VMState),
+      FailAt X ((a : Int) :: (T ++ [v'])) (loopStk counted lo S q k) C s' → Leads X s' (FailAt X (T ++ [v']) S C)) :
     Delivers X b T S S C (iter f lzy lo hi (X.se.n + lo + 1) 0 ⟨i, C⟩) s := by
   have hin : i ≤ X.se.n := hwf.1
-  have hround : ∀ (T' : List Int) (s1 : VMState), T' ≠ [] → Entry X bd i T' (loopStk counted lo S (i : Int) 1) C s1 →
+  have hround : ∀ (T' : List Int) (v1 : Int) (s1 : VMState), Entry X bd i (T' ++ [v1]) (loopStk counted lo S (i : Int) 1) C s1 →
       Delivers X b T' (loopStk counted lo S (i : Int) 1) S C
         ((f ⟨i, C⟩).flatMap (iterNext f lzy lo hi (X.se.n + lo) 0 i)) s1 := by
-    intro T' s1 hT' he1
-    have hb := hbody i C T' _ s1 hwf hT' he1
+    intro T' v1 s1 he1
+    have hb := hbody i C T' _ v1 s1 hwf he1
     refine Delivers.bind _ s1 hb ?_
-    intro r hr F' s' hF' he'
+    intro r hr F' s' v2 hF' he'
     have hrwf := hfwf _ hwf r hr
     have hrd : dirLe d i r.pos := hdir _ r hr
     have hrn := remDir_le d hrwf.1
     have hin' := remDir_le d hin
-    refine gloop_delivers htail hadj hn hdir hfwf hbody (X.se.n + lo) 0 r.pos i r.caps (F' ++ T') s' hrwf (by simp [hT'])
+    refine gloop_delivers htail hadj hn hdir hfwf hbody (X.se.n + lo) 0 r.pos i r.caps (F' ++ T') v2 s' hrwf
       (fun h => by have := hcu h; omega) ?_ he'
     intro hne
     by_cases hl0 : lo = 0
@@ -748,14 +742,14 @@ theorem gloop_node {X : Setup} {a L bd b : Nat} {counted lzy : Bool} {lo : Nat} 
     refine Delivers.of_reach hr1 ?_
     have hq : ¬ ((-1 : Int) = (((⟨i, C⟩ : St).pos : Nat) : Int) ∧ lo ≤ 0) := by
       intro h; have := h.1; simp at this
-    have := htail 0 i (-1) C ((a : Int) :: T) ((f ⟨i, C⟩).flatMap (iterNext f lzy lo hi (X.se.n + lo) 0 i)) s1 hin
+    have := htail 0 i (-1) C ((a : Int) :: T) v ((f ⟨i, C⟩).flatMap (iterNext f lzy lo hi (X.se.n + lo) 0 i)) s1 hin
       (fun _ => by omega) (fun _ _ => by omega) he1
-      (fun _ s2 F hF he2 => hround (F ++ (a : Int) :: T) s2 (by simp) he2)
+      (fun _ s2 F v2 hF he2 => hround (F ++ (a : Int) :: T) v2 s2 he2)
     rw [tailList_go (f := f) (st := ⟨i, C⟩) hq] at this
     refine (Delivers.append (F := [(a : Int)]) hframe (ys := []) _ s1 (by simpa using this) ?_).cast rfl
       (List.append_nil _)
-    intro s'' hf
-    exact hback _ _ s'' (by simpa using hf)
+    intro s'' v' hf
+    exact Delivers.fail (v := v') (hback _ _ v' s'' (by simpa using hf))
   · obtain ⟨s1, hr1, he1⟩ := hhead1 hl0
     refine Delivers.of_reach hr1 ?_
     have hcg : canGo hi 0 = true := by
@@ -768,9 +762,9 @@ theorem gloop_node {X : Setup} {a L bd b : Nat} {counted lzy : Bool} {lo : Nat} 
       cases lzy <;> simp [this, hcg]
     rw [hit]
     refine (Delivers.append (F := [(a : Int)]) hframe (ys := []) _ s1
-      (by simpa using hround ((a : Int) :: T) s1 (by simp) he1) ?_).cast rfl (List.append_nil _)
-    intro s'' hf
-    exact hback _ _ s'' (by simpa using hf)
+      (by simpa using hround ((a : Int) :: T) v s1 he1) ?_).cast rfl (List.append_nil _)
+    intro s'' v' hf
+    exact Delivers.fail (v := v') (hback _ _ v' s'' (by simpa using hf))
 
 /-! ## the loop as the writer emits it -/
 
@@ -806,17 +800,17 @@ theorem tail_of_code {X : Setup} {TPx : TP} {sets : List (List Nat)} (hrel : Env
       exact ⟨_, lazybranchcount_tail hL hc.instr (by simpa [codeLen] using hc.fetch_end) hfbd hl, fun _ _ => rfl⟩
 
 /-- the head of an emitted loop: `Nullmark|Nullcount 0; Goto tail` for a minimum of 0, else `Setmark|Setcount (1 - m)` -/
-theorem head_of_code {X : Setup} {a after : Nat} {counted : Bool} {m : Int} {i : Nat} {T S : List Int}
+theorem head_of_code {X : Setup} {a after : Nat} {counted : Bool} {m : Int} {i : Nat} {T0 S : List Int} {v : Int}
     {C : List (Nat × Nat × Nat)} {s : VMState} (h0 : 0 ≤ m)
     (hcode : CodeAt X.p a ((if counted then (if m == 0 then [i1 opNullcount 0] else [i1 opSetcount (1 - m)])
       else (if m == 0 then [i0 opNullmark] else [i0 opSetmark])) ++ (if m == 0 then [i1 opGoto (after : Int)] else [])))
-    (hfa : ∃ w, VM.fetch X.p after = .ok w) (he : Entry X a i T S C s) :
-    (m.toNat = 0 → Leads X s (Entry X after i ((a : Int) :: T) (loopStk counted m.toNat S (-1) 0) C)) ∧
-    (m.toNat ≠ 0 → Leads X s (Entry X (a + (if counted then 2 else 1)) i ((a : Int) :: T)
+    (hfa : ∃ w, VM.fetch X.p after = .ok w) (he : Entry X a i (T0 ++ [v]) S C s) :
+    (m.toNat = 0 → Leads X s (Entry X after i ((a : Int) :: (T0 ++ [v])) (loopStk counted m.toNat S (-1) 0) C)) ∧
+    (m.toNat ≠ 0 → Leads X s (Entry X (a + (if counted then 2 else 1)) i ((a : Int) :: (T0 ++ [v]))
       (loopStk counted m.toNat S (i : Int) 1) C)) ∧
     Framed X.p [(a : Int)] ∧
-    (∀ (q : Int) (k : Nat) (s' : VMState), FailAt X ((a : Int) :: T) (loopStk counted m.toNat S q k) C s' →
-      Leads X s' (FailAt X T S C)) := by
+    (∀ (q : Int) (k : Nat) (v' : Int) (s' : VMState), FailAt X ((a : Int) :: (T0 ++ [v'])) (loopStk counted m.toNat S q k) C s' →
+      Leads X s' (FailAt X (T0 ++ [v']) S C)) := by
   by_cases hm : m = 0
   · subst hm
     simp only [beq_self_eq_true, if_true] at hcode
@@ -825,7 +819,7 @@ theorem head_of_code {X : Setup} {a after : Nat} {counted : Bool} {m : Int} {i :
       simp only [if_true] at hcode ⊢
       have hh : InstrAt X.p a (i1 opNullcount 0) := (hcode.left').instr
       have hg : InstrAt X.p (a + 2) (i1 opGoto (after : Int)) := (hcode.right.cast (by simp [codeLen]) rfl).instr
-      refine ⟨fun _ => ?_, fun h => absurd rfl h, nullcount_frame hh, fun q k s' hf => ?_⟩
+      refine ⟨fun _ => ?_, fun h => absurd rfl h, nullcount_frame hh, fun q k v' s' hf => ?_⟩
       · obtain ⟨s1, hr1, he1⟩ := nullcount_leads he hh ⟨_, hg.fetch⟩
         obtain ⟨s2, hr2, he2⟩ := goto_leads he1 hg hfa
         exact ⟨s2, hr1.trans hr2, by simpa [loopStk] using he2⟩
@@ -834,7 +828,7 @@ theorem head_of_code {X : Setup} {a after : Nat} {counted : Bool} {m : Int} {i :
       simp only [Bool.false_eq_true, if_false] at hcode ⊢
       have hh : InstrAt X.p a (i0 opNullmark) := (hcode.left').instr
       have hg : InstrAt X.p (a + 1) (i1 opGoto (after : Int)) := (hcode.right.cast (by simp [codeLen]) rfl).instr
-      refine ⟨fun _ => ?_, fun h => absurd rfl h, nullmark_frame hh, fun q k s' hf => ?_⟩
+      refine ⟨fun _ => ?_, fun h => absurd rfl h, nullmark_frame hh, fun q k v' s' hf => ?_⟩
       · obtain ⟨s1, hr1, he1⟩ := nullmark_leads he hh ⟨_, hg.fetch⟩
         obtain ⟨s2, hr2, he2⟩ := goto_leads he1 hg hfa
         exact ⟨s2, hr1.trans hr2, by simpa [loopStk] using he2⟩
@@ -847,14 +841,14 @@ theorem head_of_code {X : Setup} {a after : Nat} {counted : Bool} {m : Int} {i :
     | true =>
       simp only [if_true] at hcode ⊢
       have hh : InstrAt X.p a (i1 opSetcount (1 - m)) := hcode.instr
-      refine ⟨fun h => absurd h hmt, fun _ => ?_, setcount_frame hh, fun q k s' hf => ?_⟩
+      refine ⟨fun h => absurd h hmt, fun _ => ?_, setcount_frame hh, fun q k v' s' hf => ?_⟩
       · obtain ⟨s1, hr1, he1⟩ := setcount_leads he hh (by simpa [codeLen] using hcode.fetch_end)
         exact ⟨s1, hr1, by simpa [loopStk, hmc] using he1⟩
       · exact setcount_back (by simpa [loopStk] using hf) hh
     | false =>
       simp only [Bool.false_eq_true, if_false] at hcode ⊢
       have hh : InstrAt X.p a (i0 opSetmark) := hcode.instr
-      refine ⟨fun h => absurd h hmt, fun _ => ?_, setmark_frame hh, fun q k s' hf => ?_⟩
+      refine ⟨fun h => absurd h hmt, fun _ => ?_, setmark_frame hh, fun q k v' s' hf => ?_⟩
       · obtain ⟨s1, hr1, he1⟩ := setmark_leads he hh (by simpa [codeLen] using hcode.fetch_end)
         exact ⟨s1, hr1, by simpa [loopStk] using he1⟩
       · exact setmark_back (by simpa [loopStk] using hf) hh
@@ -897,10 +891,10 @@ theorem gloopnode_delivers {X : Setup} {TPx : TP} {sets : List (List Nat)} (hrel
     (hsz : codeLen body = sz)
     (hdir : ∀ st, ∀ st' ∈ f st, dirLe d st.pos st'.pos)
     (hfwf : ∀ st, St.wf X.se.n st → ∀ st' ∈ f st, St.wf X.se.n st')
-    (hbody : ∀ (p : Nat) (C : List (Nat × Nat × Nat)) (T S' : List Int) (s : VMState), St.wf X.se.n ⟨p, C⟩ → T ≠ [] →
-      Entry X (a + loopHeadLen m n) p T S' C s → Delivers X (a + loopHeadLen m n + sz) T S' S' C (f ⟨p, C⟩) s)
-    {i : Nat} {T S : List Int} {C : List (Nat × Nat × Nat)} {s : VMState} (hwf : St.wf X.se.n ⟨i, C⟩)
-    (he : Entry X a i T S C s) :
+    (hbody : ∀ (p : Nat) (C : List (Nat × Nat × Nat)) (T S' : List Int) (v : Int) (s : VMState), St.wf X.se.n ⟨p, C⟩ →
+      Entry X (a + loopHeadLen m n) p (T ++ [v]) S' C s → Delivers X (a + loopHeadLen m n + sz) T S' S' C (f ⟨p, C⟩) s)
+    {i : Nat} {T S : List Int} {v : Int} {C : List (Nat × Nat × Nat)} {s : VMState} (hwf : St.wf X.se.n ⟨i, C⟩)
+    (he : Entry X a i (T ++ [v]) S C s) :
     Delivers X (a + loopHeadLen m n + sz + loopTailLen m n) T S S C
       (iter f lzy m.toNat (hiOf n) (X.se.n + m.toNat + 1) 0 ⟨i, C⟩) s := by
   have hhl := loopHead_len m n ((a + loopHeadLen m n + sz : Nat) : Int)
@@ -931,7 +925,7 @@ theorem gloopnode_delivers {X : Setup} {TPx : TP} {sets : List (List Nat)} (hrel
   have hbl : a + loopHeadLen m n + sz + loopTailLen m n = a + loopHeadLen m n + sz + (if counted m n then 3 else 2) := by
     unfold loopTailLen; rfl
   rw [hbl]
-  refine gloop_node htail hadj hn hdir hfwf hbody ?_ ?_ hwf he hh0 ?_ hfr hbk
+  refine gloop_node htail hadj hn hdir hfwf hbody ?_ ?_ hwf hh0 ?_ hfr hbk
   · intro h hh
     unfold hiOf at hh
     split at hh
